@@ -9,22 +9,22 @@ import (
 	"time"
 
 	"github.com/cloudwego/eino/compose"
+	"github.com/cloudwego/eino/schema"
 
 	"verif/lib/gprog"
 	"verif/lib/harness"
 )
 
 type Case struct {
-	Family string         `json:"family"` // shape | kind | chain
-	Prog   *gprog.Prog    `json:"prog,omitempty"`
-	Chain  []Stage        `json:"chain,omitempty"`
-	Script gprog.Script   `json:"script"`
-	Call   string         `json:"call"` // invoke | stream
-	RtMax  int            `json:"rt_max,omitempty"` // WithRuntimeMaxSteps call option
+	Family string       `json:"family"` // shape | kind | chain
+	Prog   *gprog.Prog  `json:"prog,omitempty"`
+	Chain  []Stage      `json:"chain,omitempty"`
+	Script gprog.Script `json:"script"`
+	Call   string       `json:"call"`             // invoke | stream
+	RtMax  int          `json:"rt_max,omitempty"` // WithRuntimeMaxSteps call option
 }
 
 var input = gprog.Val{"in": "x"}
-
 
 // runImpl executes one trace on the real implementation.
 func runImpl(r compose.Runnable[gprog.Val, gprog.Val], cs *Case) (res gprog.Val, err error, log []gprog.Entry) {
@@ -86,9 +86,9 @@ func sigOf(err error) string {
 // chains
 
 type Stage struct {
-	Kind string  `json:"kind"` // lambda | parallel | branch | pass | chain
+	Kind string   `json:"kind"` // lambda | parallel | branch | pass | chain
 	Keys []string `json:"keys,omitempty"`
-	Sub  []Stage `json:"sub,omitempty"`
+	Sub  []Stage  `json:"sub,omitempty"`
 }
 
 func stagesString(st []Stage) string {
@@ -129,13 +129,27 @@ func buildChain(st []Stage, path string, bid *int) *compose.Chain[gprog.Val, gpr
 			id := fmt.Sprintf("chainbr%d", *bid)
 			*bid++
 			keys := s.Keys
-			b := compose.NewChainBranch(func(ctx context.Context, in gprog.Val) (string, error) {
+			decide := func(ctx context.Context) string {
 				ans := gprog.RunOf(ctx).Script[id]
 				if ans >= len(keys) {
 					ans = 0
 				}
-				return keys[ans], nil
-			})
+				return keys[ans]
+			}
+			var b *compose.ChainBranch
+			if (*bid)%2 == 0 { // every second chain branch is a STREAM branch (reads its input to the end)
+				b = compose.NewStreamChainBranch(func(ctx context.Context, in *schema.StreamReader[gprog.Val]) (string, error) {
+					defer in.Close()
+					for {
+						if _, err := in.Recv(); err != nil {
+							break
+						}
+					}
+					return decide(ctx), nil
+				})
+			} else {
+				b = compose.NewChainBranch(func(ctx context.Context, in gprog.Val) (string, error) { return decide(ctx), nil })
+			}
 			for _, k := range s.Keys {
 				b.AddLambda(k, gprog.DefaultLambda(joinp(path, k), k))
 			}
